@@ -121,19 +121,22 @@ class Recorder:
 
 
 class State:
-    __slots__ = ("locals", "heap", "written")
+    """abstract state; `token` is a trace-partition token of the current activation (the variant of the value just
+    stored in the return place), so that paths returning different variants are not joined before the return"""
+    __slots__ = ("locals", "heap", "written", "token")
     interp = None
 
-    def __init__(self, locals_=None, heap=None, written=frozenset()):
+    def __init__(self, locals_=None, heap=None, written=frozenset(), token=None):
         self.locals = locals_ if locals_ is not None else {}
         self.heap = heap if heap is not None else {}
         self.written = written
+        self.token = token
 
     def copy(self):
-        return State(dict(self.locals), dict(self.heap), self.written)
+        return State(dict(self.locals), dict(self.heap), self.written, self.token)
 
     def __eq__(self, o):
-        return self.locals == o.locals and self.heap == o.heap and self.written == o.written
+        return self.locals == o.locals and self.heap == o.heap and self.written == o.written and self.token == o.token
 
 
 def join_state(a, b):
@@ -168,7 +171,7 @@ def join_state(a, b):
             heap[k] = other if d is None else join(other, d)
         else:
             heap[k] = x if x is y else join(x, y)
-    return State(loc, heap, a.written | b.written)
+    return State(loc, heap, a.written | b.written, a.token if a.token == b.token else None)
 
 
 class Frame:
@@ -200,6 +203,9 @@ class Interp:
         self.sym_info = {}
         self.errvar_cache = {}
         self.edges = {}
+        self.cur_token = None
+        self.fuse_tag = None
+        self.last_exits = []
         State.interp = self
 
     # ---- frames ----------------------------------------------------------------------
@@ -435,7 +441,11 @@ class Interp:
         return av
 
     def sitekey(self, frame, bi, si, sub=0):
-        return (self.cfg.label, frame.fid, bi, si, sub)
+        tok = getattr(self, "cur_token", None)
+        fz = getattr(self, "fuse_tag", None)
+        if tok is None and fz is None:
+            return (self.cfg.label, frame.fid, bi, si, sub)
+        return (self.cfg.label, frame.fid, bi, si, (sub, repr(tok), fz))
 
     def cells(self, state):
         """compact snapshot of the job cells (for fact context)"""
@@ -479,6 +489,14 @@ class Interp:
             self.rec.put("store_self", self.sitekey(frame, bi, si),
                          dict(fn=frame.body.name, bb=bi, span=span, proj=proj, value=av,
                               old=av_get(self.load_root(state, root), proj, self.uni), stack=frame.stack))
+        if root[0] == "local" and root[2] == 0 and not proj and root[1] == frame.fid and state.token is None and frame.stack:
+            sig = None
+            if av[0] == "adt" and len(av[2]) == 1 and av[1] in ("std::option::Option", "std::result::Result"):
+                sig = ("v", av[2][0][0])
+            elif av[0] == "fin" and av[1] == BOOL and len(av[2]) == 1:
+                sig = ("b", list(av[2])[0][0])
+            if sig is not None:
+                state.token = ("ret", frame.fid, sig)
         old = self.load_root(state, root)
         if root[0] == "box":
             new = av      # MaybeUninit / ManuallyDrop wrappers around the boxed value are transparent
@@ -755,40 +773,68 @@ class Interp:
         if body.name not in rpo:
             rpo[body.name] = self.rpo(body)
         order = rpo[body.name]
-        ins = {start: entry}
-        work = {start}
-        exit_state = None
+        ins = {(start, entry.token): entry}
+        work = {(start, entry.token)}
+        exits = []
         stops = set(stops)
         stop_states = {}
         iters = 0
+        es = self.edges.setdefault(frame.fid, set())
         while work:
-            b = min(work, key=lambda x: order.get(x, 1 << 30))
-            work.discard(b)
+            key = min(work, key=lambda x: (order.get(x[0], 1 << 30), repr(x[1])))
+            work.discard(key)
+            b = key[0]
             iters += 1
             if iters > 200000:
                 raise Imprecision("no fixpoint in %s" % body.name)
-            st = ins[b].copy()
+            st = ins[key].copy()
+            self.cur_token = key[1]
             outs = self.exec_block(st, frame, b)
-            es = self.edges.setdefault(frame.fid, set())
             for succ, s2 in outs:
-                es.add((b, succ))
+                if isinstance(succ, tuple):
+                    # (via, target): an edge out of a block that was executed fused with its predecessor
+                    es.add((b, succ[0]))
+                    es.add((succ[0], succ[1]))
+                    succ = succ[1]
+                else:
+                    es.add((b, succ))
                 if succ == "return":
-                    exit_state = join_state(exit_state, s2)
+                    exits.append(s2)
                     continue
                 if succ in stops:
                     stop_states[succ] = join_state(stop_states.get(succ), s2)
                     continue
-                old = ins.get(succ)
+                k2 = (succ, s2.token)
+                old = ins.get(k2)
                 if old is None:
-                    ins[succ] = s2
-                    work.add(succ)
+                    ins[k2] = s2
+                    work.add(k2)
                 else:
                     new = join_state(old, s2)
                     if not (new == old):
-                        ins[succ] = new
-                        work.add(succ)
+                        ins[k2] = new
+                        work.add(k2)
+        self.cur_token = None
+        # exit partitions: one per token
+        parts = {}
+        for s2 in exits:
+            parts[s2.token] = join_state(parts.get(s2.token), s2)
+        self.last_exits = list(parts.values())
+        exit_state = None
+        for s2 in parts.values():
+            j = s2.copy()
+            j.token = None
+            exit_state = join_state(exit_state, j)
         if collect is not None:
-            collect["ins"] = ins
+            byb = {}
+            for (b, tok), stt in ins.items():
+                j = stt
+                if b in byb:
+                    a_ = byb[b].copy(); a_.token = None
+                    b_ = stt.copy(); b_.token = None
+                    j = join_state(a_, b_)
+                byb[b] = j
+            collect["ins"] = byb
             collect["stops"] = stop_states
         return exit_state
 
@@ -904,12 +950,13 @@ class Interp:
         m = {}
         order = []
         for tgt, s in outs:
-            if tgt in m:
-                m[tgt] = join_state(m[tgt], s)
+            k = (tgt, s.token)
+            if k in m:
+                m[k] = join_state(m[k], s)
             else:
-                m[tgt] = s
-                order.append(tgt)
-        return [(t, m[t]) for t in order]
+                m[k] = s
+                order.append(k)
+        return [(k[0], m[k]) for k in order]
 
     def refine_operand_bool(self, state, frame, op, v):
         p = op.get("copy") or op.get("move")
@@ -1063,6 +1110,38 @@ class Interp:
         else:
             results = self.models_mod.indirect_call(self, state, frame, bi, t, args, span)
         outs = []
+        fuse = False
+        if len(results) > 1 and tgt != bi and not dest["p"]:
+            preds = body.preds().get(tgt, [])
+            sigs = set()
+            for (rv, _st) in results:
+                if rv[0] == "adt" and len(rv[2]) == 1:
+                    sigs.add(("v", rv[2][0][0]))
+                elif rv[0] == "fin" and rv[1] == BOOL and len(rv[2]) == 1:
+                    sigs.add(("b", list(rv[2])[0][0]))
+                else:
+                    sigs.add(None)
+            fuse = len(preds) == 1 and None not in sigs and len(sigs) > 1 and body.term(tgt)["k"] == "switch"
+        if fuse:
+            # path-sensitive step: run the (single-predecessor) switch block once per result instead of joining first
+            saved = getattr(self, "fuse_tag", None)
+            for ri, (rv, st2) in enumerate(results):
+                rv = self.typed(rv, dest_ty)
+                self.write_place(st2, frame, dest, rv, bi, -1, span)
+                self.fuse_tag = (bi, ri)
+                for (succ, s3) in self.exec_block(st2, frame, tgt):
+                    outs.append(((tgt, succ), s3))
+            self.fuse_tag = saved
+            m = {}
+            order_ = []
+            for (k_, s3) in outs:
+                kk = (k_, s3.token)
+                if kk in m:
+                    m[kk] = join_state(m[kk], s3)
+                else:
+                    m[kk] = s3
+                    order_.append(kk)
+            return [(kk[0], m[kk]) for kk in order_]
         for (rv, st2) in results:
             rv = self.typed(rv, dest_ty)
             self.write_place(st2, frame, dest, rv, bi, -1, span)
@@ -1073,11 +1152,28 @@ class Interp:
         stack = frame.stack + ((frame.body.name, bi),)
         fr = self.new_frame(cb, stack)
         st = state.copy()
+        caller_token = st.token
+        caller_cur = getattr(self, "cur_token", None)
+        st.token = None
         for i, a in enumerate(args):
             st.locals[(fr.fid, i + 1)] = self.typed(a, cb.locals[i + 1] if i + 1 < len(cb.locals) else None)
-        out = self.run(fr, st)
-        if out is None:
+        joined = self.run(fr, st)
+        self.cur_token = caller_cur
+        if joined is None:
             return []
+        parts = list(self.last_exits)
+        if len(parts) > 1 and cb.kind != "Promoted":
+            res = []
+            for p_ in parts:
+                p2 = p_.copy()
+                p2.token = caller_token
+                res.extend(self.finish_inline(p2, fr, cb, frame, bi, args))
+            return res
+        out = joined
+        out.token = caller_token
+        return self.finish_inline(out, fr, cb, frame, bi, args)
+
+    def finish_inline(self, out, fr, cb, frame, bi, args):
         rv = out.locals.get((fr.fid, 0), TOP)
         if cb.locals[0]["s"] == "bool" and cb.kind != "Closure":
             rv = self.typed(rv, cb.locals[0])
@@ -1228,6 +1324,7 @@ class Interp:
             return TOP
         if s == "usize":
             sym = ("param", body.name, i)
+            self.sym_info[sym] = (frozenset([("param", i)]), None)
             return key(sym, [("param", i)])
         if s == "std::string::String":
             return string([("param", body.name, i)])
